@@ -26,6 +26,9 @@ def runOne (st : GsState) (r : List (String × String)) : Option (GsState × Str
   let regKey := registeredKey conf.dir
   let behav : SignBehav ← match (get "ag").splitOn ":" with
     | ["honest"] => some .honest
+    -- an honest agent whose listing ends with one more identity under the RA's key comment (the
+    -- comment does not carry the handler's label: nothing the RA does may depend on it)
+    | ["honest+le"] => some .honest
     | ["okey", k] => (parseLKey k).map SignBehav.otherKey
     | ["odata"] => some .otherData
     | ["replay"] =>
@@ -73,6 +76,11 @@ def parseInit (s : String) : Option (List AIdent × List Key × Nat) :=
     | ["c", k, c] => do
       let k ← parseLKey k; let c ← bytesOfHex c
       pure (put ⟨k, some ⟨n + 1, k⟩, c, 0⟩ ids, if holds.contains k then holds else k :: holds, n + 1)
+    | ["cc", k, c] => do
+      -- a certificate identity the agent lists twice
+      let k ← parseLKey k; let c ← bytesOfHex c
+      let x : AIdent := ⟨k, some ⟨n + 1, k⟩, c, 0⟩
+      pure (ids ++ [x, x], if holds.contains k then holds else k :: holds, n + 1)
     | [k, c] => do
       let k ← parseLKey k; let c ← bytesOfHex c
       pure (put ⟨k, none, c, 0⟩ ids, if holds.contains k then holds else k :: holds, n)
